@@ -335,6 +335,31 @@ def run_rot(ctx, u):
                     if ok3:
                         ctx.check(np.array_equal(np.asarray(oo), keep) and np.array_equal(native_of(A), exp),
                                   "array2d.original_orientation", shape=(H, W), corner=c, how=how, expected=keep, got=lambda: np.asarray(oo))
+                # masked native-stored arrays (masks that are NOT symmetric under the flip): the content in the original frame is the
+                # flip of the array's own native content (masked cells zero), i.e. the mask travels with the values
+                if H * W >= 2:
+                    mlist = []
+                    for mk in ("top_row", "right_column", "corner_pixel", "first_cell_only_unmasked"):
+                        mm = np.zeros((H, W), bool)
+                        if mk == "top_row" and H >= 2:
+                            mm[0, :] = True
+                        elif mk == "right_column" and W >= 2:
+                            mm[:, -1] = True
+                        elif mk == "corner_pixel":
+                            mm[0, W - 1] = True
+                        elif mk == "first_cell_only_unmasked":
+                            mm[:] = True
+                            mm[0, 0] = False
+                        if mm.any() and not mm.all():
+                            mlist.append((mk, mm))
+                    for mk, mm in mlist:
+                        Am = aa.Array2D(values=exp.copy(), mask=aa.Mask2D(mask=mm.copy(), pixel_scales=ps), header=hdr, store_native=True)
+                        content = np.where(mm, 0, exp)
+                        ok3, oo = ctx.guarded("array2d.original_orientation", lambda: np.asarray(native_of(Am.original_orientation)))
+                        if ok3:
+                            ctx.check(oo.shape == content.shape and np.array_equal(oo, ref_rot(content, c)), "array2d.original_orientation", shape=(H, W),
+                                      corner=c, how="masked_native:" + mk, mask=mm, expected=lambda: ref_rot(content, c), got=oo)
+                            ctx.classes["original_orientation_of_masked_array"] += 1
                 # observation only: slim-stored arrays
                 ctx.note("observation (not checked): a slim-stored Array2D hands its 1-D buffer to the rotation - "
                          "original_orientation raises IndexError for corners (0,0),(0,1),(1,1) and returns the 1-D buffer for (1,0)")
